@@ -16,7 +16,7 @@
 From Coq Require Import List Bool ZArith String Permutation.
 From KV Require Import Eqb AL.
 From KV.Model Require Import MRec MTraj.
-From KV.Proofs Require Import PRec PTraj.
+From KV.Proofs Require Import PRec PTraj PTrajX.
 Import ListNotations.
 Local Open Scope Z_scope.
 
@@ -152,6 +152,125 @@ Theorem C07_interpolation_none_without_bracket :
 Proof. intros. eapply interp_no_bracket; try eassumption. apply reachable_TRel. Qed.
 Print Assumptions C07_interpolation_none_without_bracket.
 
+(* --- 5. Trajectories.inverse() (a new container filled through c[t, d] = pose.inverse()), on every reachable
+        state and for every function [pinv]: exactly the same keys with the inverted poses, hence the same
+        membership answers, sorted timestamp list and timestamp_length, *)
+Theorem C07_inverse_same_keys_inverted_poses :
+  forall (D P : Type) (ED : EqDec D) (EP : EqDec P)
+         (interp : Z -> Z -> P -> Z -> P -> P) (nd : Z -> Z) (maxsize : Z) (pinv : P -> P) (ops : list (top D P)),
+    let c := snd (t_run interp nd (init maxsize) ops) in
+    let c' := inverse_c interp nd maxsize pinv c in
+    (forall t d, lookup2 t d (data c') = option_map pinv (lookup2 t d (data c))) /\
+    (forall t d, has_pair (data c') t d = has_pair (data c) t d) /\
+    (forall t, has_ts (data c') t = has_ts (data c) t) /\
+    fst (t_step interp nd c' Sorted) = fst (t_step interp nd c Sorted) /\
+    fst (t_step interp nd c' TsLen) = fst (t_step interp nd c TsLen).
+Proof.
+  intros. pose proof (reachable_TRel interp nd maxsize ops) as TR. split.
+  - apply (inverse_lookup interp nd maxsize pinv _ _ (proj1 TR)).
+  - apply (inverse_keeps_keys interp nd maxsize pinv _ _ TR).
+Qed.
+Print Assumptions C07_inverse_same_keys_inverted_poses.
+
+(*      and the inverted container is again a plain map (of the relabelled entries) under every further
+        operation sequence: TRel holds for it, so theorems 2-4 apply to it verbatim. *)
+Theorem C07_inverse_refines_plain_map :
+  forall (D P : Type) (ED : EqDec D) (EP : EqDec P)
+         (interp : Z -> Z -> P -> Z -> P -> P) (nd : Z -> Z) (maxsize : Z) (pinv : P -> P)
+         (ops more : list (top D P)),
+    let c' := inverse_c interp nd maxsize pinv (snd (t_run interp nd (init maxsize) ops)) in
+    let a' := vmap pinv (snd (s_trun interp nd [] ops)) in
+    TRel c' a' /\
+    Forall2 out_equiv (fst (t_run interp nd c' more)) (fst (s_trun interp nd a' more)) /\
+    TRel (snd (t_run interp nd c' more)) (snd (s_trun interp nd a' more)).
+Proof.
+  intros. pose proof (reachable_TRel interp nd maxsize ops) as [Rl _].
+  pose proof (inverse_TRel interp nd maxsize pinv _ _ Rl) as TR'.
+  split; [exact TR' | apply traj_refines; exact TR'].
+Qed.
+Print Assumptions C07_inverse_refines_plain_map.
+
+(* --- 6. sensors_ids and data_list() are functions of the entries: a device is listed (once) iff it has an
+        entry at some timestamp; data_list() holds one value per entry of the plain map *)
+Theorem C07_sensors_ids_are_the_devices_with_an_entry :
+  forall (D P : Type) (ED : EqDec D) (EP : EqDec P) (ops : list (mop D P)) d,
+    let x := snd (m_run [] ops) in
+    (In d (sensors_of x) <-> exists t, has_pair x t d = true) /\ NoDup (sensors_of x).
+Proof.
+  intros. split; [|apply dedup_NoDup]. apply sensors_spec. apply (reachable_Rel ops).
+Qed.
+Print Assumptions C07_sensors_ids_are_the_devices_with_an_entry.
+
+Theorem C07_trajectories_sensors_ids :
+  forall (D P : Type) (ED : EqDec D) (EP : EqDec P)
+         (interp : Z -> Z -> P -> Z -> P -> P) (nd : Z -> Z) (maxsize : Z) (ops : list (top D P)) d,
+    let x := data (snd (t_run interp nd (init maxsize) ops)) in
+    In d (sensors_of x) <-> exists t, has_pair x t d = true.
+Proof. intros. apply sensors_spec. apply (reachable_TRel interp nd maxsize ops). Qed.
+Print Assumptions C07_trajectories_sensors_ids.
+
+Theorem C07_data_list_one_value_per_entry :
+  forall (D P : Type) (ED : EqDec D) (EP : EqDec P) (ops : list (mop D P)),
+    Permutation (data_list_of (snd (m_run [] ops))) (map snd (snd (s_run [] ops))).
+Proof. intros. apply data_list_perm. apply (reachable_Rel ops). Qed.
+Print Assumptions C07_data_list_one_value_per_entry.
+
+(* --- 7. what an operation must NOT change.  From ANY state (reachable or not): c[t,d] = p and del c[t,d]
+        leave every other pair alone, c[t] = {..} and del c[t] leave every other timestamp alone, queries
+        leave everything alone ([other_pair o t' d'] says (t', d') is not the pair / timestamp o writes) *)
+Theorem C07_edit_leaves_other_entries :
+  forall (D P : Type) (ED : EqDec D) (EP : EqDec P) (x : nested D P) (o : mop D P) t' d',
+    other_pair o t' d' -> lookup2 t' d' (snd (m_step x o)) = lookup2 t' d' x.
+Proof. intros. apply edit_frame. assumption. Qed.
+Print Assumptions C07_edit_leaves_other_entries.
+
+(*      an operation that raises (KeyError on a missing key, TypeError on an ill-typed call) leaves the
+        entries AND the cached list and bounds exactly as they were *)
+Theorem C07_failed_operation_changes_nothing :
+  forall (D P : Type) (ED : EqDec D) (EP : EqDec P)
+         (interp : Z -> Z -> P -> Z -> P -> P) (nd : Z -> Z) (c : cstate D P) (mo : mop D P),
+    is_err (fst (t_step interp nd c (M mo))) = true -> snd (t_step interp nd c (M mo)) = c.
+Proof. intros D P ED EP interp nd. exact (failed_map_op_changes_nothing interp nd). Qed.
+Print Assumptions C07_failed_operation_changes_nothing.
+
+(*      asking for the sorted list again gives the same list and changes nothing more (from any state) *)
+Theorem C07_sorted_list_idempotent :
+  forall (D P : Type) (ED : EqDec D) (EP : EqDec P)
+         (interp : Z -> Z -> P -> Z -> P -> P) (nd : Z -> Z) (c : cstate D P),
+    let c1 := snd (t_step interp nd c Sorted) in
+    fst (t_step interp nd c1 Sorted) = fst (t_step interp nd c Sorted) /\ snd (t_step interp nd c1 Sorted) = c1 /\
+    fst (t_step interp nd c1 TsLen) = fst (t_step interp nd c TsLen) /\ snd (t_step interp nd c1 TsLen) = c1.
+Proof. intros D P ED EP interp nd. exact (sorted_idempotent interp nd). Qed.
+Print Assumptions C07_sorted_list_idempotent.
+
+(* --- 8. the algebra of pair edits, from ANY state (reachable or not): the exact content after c[t,d] = p and after
+        del c[t,d] (whether it succeeds or raises KeyError), hence: assignments to different pairs commute (order of
+        edits is irrelevant to the content), the later assignment to a pair wins (and assigning twice = once), and
+        deleting a pair that was absent before it was assigned restores the former content *)
+Theorem C07_pair_edit_content :
+  forall (D P : Type) (ED : EqDec D) (EP : EqDec P) (x : nested D P) t d p t' d',
+    lookup2 t' d' (snd (m_step x (SetPair t d p))) = (if eqb t' t && eqb d' d then Some p else lookup2 t' d' x) /\
+    lookup2 t' d' (snd (m_step x (DelPair t d))) = (if eqb t' t && eqb d' d then None else lookup2 t' d' x).
+Proof. intros. split; [apply set_pair_spec | apply del_pair_spec]. Qed.
+Print Assumptions C07_pair_edit_content.
+
+Theorem C07_pair_edits_commute_overwrite_undo :
+  forall (D P : Type) (ED : EqDec D) (EP : EqDec P) (x : nested D P) t1 d1 p1 t2 d2 p2 t d,
+    ((t1, d1) <> (t2, d2) ->
+     lookup2 t d (snd (m_step (snd (m_step x (SetPair t1 d1 p1))) (SetPair t2 d2 p2))) =
+     lookup2 t d (snd (m_step (snd (m_step x (SetPair t2 d2 p2))) (SetPair t1 d1 p1)))) /\
+    lookup2 t d (snd (m_step (snd (m_step x (SetPair t1 d1 p1))) (SetPair t1 d1 p2))) =
+    lookup2 t d (snd (m_step x (SetPair t1 d1 p2))) /\
+    (lookup2 t1 d1 x = None ->
+     lookup2 t d (snd (m_step (snd (m_step x (SetPair t1 d1 p1))) (DelPair t1 d1))) = lookup2 t d x).
+Proof.
+  intros. split; [|split].
+  - intros N. apply set_pairs_commute. exact N.
+  - apply set_pair_overwrites.
+  - intros E. apply set_then_delete_restores. exact E.
+Qed.
+Print Assumptions C07_pair_edits_commute_overwrite_undo.
+
 (* --- non-vacuity: a concrete history (strings as devices, symbolic poses) where the clauses bite:
        interpolation skips a timestamp that only the other device has, honours the interval, survives
        deletions down to one and zero timestamps, and assigning an empty dict removes the timestamp *)
@@ -204,3 +323,14 @@ Proof. vm_compute. repeat split. Qed.
 Example C07_num_digits_observation :
   nd_float 99999999999999999 = 18 /\ nd_exact 99999999999999999 = 17 /\ nd_float 999999999999999 = 15.
 Proof. vm_compute. repeat split. Qed.
+
+(* --- non-vacuity of 5-7: a history with a filled cache, then inverse(): the new container lists the same
+       timestamps, interpolates between the inverted poses (ids + inv_offset) and has its own fresh bounds;
+       sensors_ids after a deletion; a failing delete *)
+Example C07_example_inverse :
+  xt_run 9223372036854775807 (init 9223372036854775807)
+    [ SP 10 "a" 1; SP 30 "a" 2; SP 20 "b" 3; SO; SI; IV; SO; IP 20 "a" 10; IP 35 "a" 10; GP 20 "b";
+      DP 20 "b"; SI; DP 20 "b"; SO ]
+  = [ ON; ON; ON; OL [10; 20; 30]; OS ["a"; "b"]; ON; OL [10; 20; 30]; OM 20 10 1000001 30 1000002; ON; OV 1000003;
+      ON; OS ["a"]; EK; OL [10; 30] ].
+Proof. vm_compute. reflexivity. Qed.
